@@ -224,4 +224,32 @@ CHECKS = {
         note="The specification is a format description and a generator; fidelity of serde_json itself is outside it.",
         technique="TLA+ format specification; TLC-enumerated type trees replayed through serde; TLC trace validation of the JSON observed",
         ref="DESIGN.md §4 C20"),
+    "C07": dict(
+        category="translation_validation",
+        text="Evm.tla is a concrete EVM for the fragment of the statement (PUSH0..32, DUP/SWAP1..16, POP, all ALU opcodes incl. "
+             "ADDMOD/MULMOD/SIGNEXTEND/BYTE, PC, CODESIZE, word-aligned MSTORE/MLOAD, SLOAD/SSTORE, JUMP/JUMPI with forced "
+             "decisions) written as a checker of a claimed execution over Word.tla. For every path the real VM explores on "
+             "generated stack-safe loop-free constant programs, the path is rebuilt from the hook events, a scratch "
+             "interpreter's run along it is verified step by step by Evm!Step, every node of the final symbolic stack, memory "
+             "words and storage generations is given a scratch value verified by Evm!NodeClaimOK (the operator over its operands "
+             "in EVM order), and EvmTrace.tla checks Inv_C07_Stack, Inv_C07_Memory, Inv_C07_Storage (exactly this path's "
+             "writes, in order, one entry per slot word) and Inv_C07_Path.",
+        note="Four genuine shortfalls are known findings, recognised by what the path did (SIGNEXTEND, overflowing ADDMOD/MULMOD, "
+             "BYTE with an index >= 2^253, programs that address one slot through two key expressions); paths carrying such a tag "
+             "are excused only for the invariants named in the signature.",
+        technique="TLA+ concrete EVM as execution checker; per-path translation validation of the symbolic state by TLC trace validation",
+        ref="DESIGN.md §4 C07"),
+    "C01": dict(
+        category="exploration",
+        text="Pipeline.tla specifies the extractor's typestate with exactly two kinds of terminal state; RolesGen (TLC over "
+             "Opcodes.tla) enumerates opcode x operand position x 14 boundary constants, assembled in three contexts; with "
+             "crafted cyclic-type and load-chain programs, random bytes, opcode soup, control-flow / idiom / constant programs "
+             "and mutated / truncated real contracts, each under a random valid configuration, every case is run through the 5 "
+             "staged calls and analyze() in a dev-profile child process; PipelineTrace.tla replays the recorded outcomes on the "
+             "typestate (Inv_C01_Total, Inv_C01_Consistent). A child that dies or sits on one case for more than 90 s is a "
+             "violation attributed to the case in flight.",
+        note="The specification contributes the typestate, the boundary-case generator and the acceptor; the deciding "
+             "observation is 'every call returned'. Configurations stay within the bounds listed in the evidence.",
+        technique="TLA+ typestate + TLC-enumerated boundary programs; process-isolated exploration with TLC trace validation of stage outcomes",
+        ref="DESIGN.md §4 C01"),
 }
